@@ -46,14 +46,26 @@ def run(ctx: Ctx) -> None:
     ctx.rule = ("valid well-formed trees (exhaustive up to 3/4 leaves over {1,2,501,901}, random up to 7/9 leaves with <=3 format keys); all 3^m requirement "
                 "assignments (sampled beyond 81/243) x ALL 2^n truth assignments of the format keys; distinct = (tree, rc assignment); non-trivial = has a format key")
     ctx.coverage["generated_changed"] = extract.regenerate(["Cfv", "CharClasses"])
-    ok = ctx.lean_build(MODULES + ["driver"])
+    ok = ctx.lean_build(MODULES)
+    drv = ctx.lean_build_driver()
     if ok:
         ctx.lean_audit(MODULES)
         if not ctx.quick:
             ctx.lean_check_olean(MODULES)
     exprs = [(s, e) for s, e in EC.gen_exprs(ctx, ctx.pick(300, 3000), ctx.pick(7, 9), ctx.pick(3, 4)) if E.well_formed(e) and not E.invalid_at(e)]
+    # format-constraint-heavy stream: compound contributions on both sides of every operator
+    def fc_leaf(r):
+        f = ("cond", r.choice(E.FC_KEYS[:3] + ["950"]))
+        if r.random() < 0.4:
+            x = ("cond", r.choice(E.RC_KEYS[:3]))
+            return (T.THEN, x, f) if r.random() < 0.7 else (T.THEN, f, x)
+        return f
+    for _ in range(ctx.pick(400, 4000)):
+        e = T.rand_expr(ctx.rng, ctx.rng.randint(3, ctx.pick(8, 10)), fc_leaf, (T.AND, T.OR, T.XOR))
+        if E.well_formed(e) and not E.invalid_at(e) and len(E.keys_by_kind(e)["rc"]) <= 3:
+            exprs.append(("fc-heavy", e))
     cases = EC.rc_cases(ctx, exprs, ctx.pick(81, 243))
-    EC.run_impl_and_model(ctx, cases, ok)
+    EC.run_impl_and_model(ctx, cases, drv)
     evalenv.configure_cer_based()
     parse_cache = {}
     n_meaning = 0
@@ -67,6 +79,7 @@ def run(ctx: Ctx) -> None:
             continue
         fce = i["fce"]
         ctx.count("fce", "absent" if fce is None else "present")
+        ctx.count("stream", c["stream"])
         sems = {vals: fc_sem(e, c["rc"], dict(zip(fkeys, vals))) for vals in itertools.product([True, False], repeat=len(fkeys))}
         contributes = any(v is not None for v in sems.values())
         if (fce is None) != (not contributes):
@@ -106,7 +119,7 @@ def run(ctx: Ctx) -> None:
     ctx.coverage["meaning_checks"] = n_meaning
     # correspondence: presence and flat(parse) gate, layout advisory
     n_diff = 0
-    if ok:
+    if drv:
         reqs, idx = [], []
         for k, c in enumerate(cases):
             m = c.get("model", {})
